@@ -110,6 +110,14 @@ def ast_mutants(p, rng, n):
             parent = get(p, path[:-1]) if path else None
             if isinstance(parent, tuple) and parent and parent[0] == "expr":
                 continue    # the expression of an expression statement may be of any type (and a sentence has to start with a capital letter)
+            # an element of a list literal: the written literal carries no element type of its own (`eine Liste, die aus … besteht`
+            # is typed by its elements), so the tree with the old annotation and a new element prints as a well-formed literal of
+            # another list type whenever all elements change alike — not a static fault by construction
+            grand = get(p, path[:-2]) if len(path) >= 2 else None
+            if isinstance(grand, tuple) and grand and grand[0] == "list":
+                continue
+            if isinstance(parent, tuple) and parent and parent[0] == "listrep" and path[-1] == 3:
+                continue
             new = LITS[rng.below(len(LITS))]
             if new[0] == old[0]:
                 continue
